@@ -315,6 +315,14 @@ class Fn:
                 return lv[1]
             if ck == 'IntegralCast':
                 return '(ECast %s %s)' % (self.ity(n), self.rv(sub))
+            if ck == 'BitCast' and self.callee_name(sub) in ('malloc', 'calloc'):
+                # T *p = malloc(bytes): a fresh block of bytes * cells(T) / sizeof(T) cells
+                t = T.parse(qt(n))
+                if t[0] != 'ptr':
+                    raise Unsupported('malloc cast to a non-pointer')
+                if self.callee_name(sub) == 'calloc':
+                    raise Unsupported('calloc')
+                return '(EBuiltin BMalloc [%s])' % self.cells_of_bytes(self.rv(self.call_args(sub)[0]), t[1])
             if ck in ('NoOp', 'BitCast'):
                 return self.rv(sub)
             if ck == 'NullToPointer':
@@ -402,6 +410,21 @@ class Fn:
                 return '(ECall F_%s %s)' % (coq, al)
             if name in BUILTINS:
                 return '(EBuiltin %s %s)' % (BUILTINS[name], al)
+            if name == 'free':
+                return '(EBuiltin BFree %s)' % al
+            if name in ('memcpy', 'memmove', 'memset'):
+                # the byte count becomes a cell count, by the pointee type of the destination before its cast to void *
+                d = args[0]
+                while d['kind'] in ('ImplicitCastExpr', 'CStyleCastExpr', 'ParenExpr') and d.get('castKind', 'BitCast') in ('BitCast', 'NoOp') and T.parse(qt(d)) == ('ptr', ('void',)):
+                    d = d['inner'][0]
+                td = T.parse(qt(d))
+                if td[0] != 'ptr' or td[1][0] == 'void':
+                    raise Unsupported('%s with an untyped destination' % name)
+                cnt = self.cells_of_bytes(self.rv(args[2]), td[1])
+                b = {'memcpy': 'BMemcpy', 'memmove': 'BMemmove', 'memset': 'BMemset'}[name]
+                return '(EBuiltin %s [%s; %s; %s])' % (b, self.rv(args[0]), self.rv(args[1]), cnt)
+            if name == 'malloc':
+                raise Unsupported('malloc whose result is not cast to a typed pointer at once')
             return '(ECall %s %s)' % (self.tr.extern(name), al)
         if k == 'UnaryExprOrTypeTraitExpr':
             if n.get('name') != 'sizeof':
@@ -414,6 +437,32 @@ class Fn:
         if k in ('DeclRefExpr', 'ArraySubscriptExpr', 'MemberExpr'):
             raise Unsupported('lvalue %s used as a value without conversion' % k)
         raise Unsupported('expression %s' % k)
+
+    def callee_name(self, n):
+        while n.get('kind') in ('ParenExpr',):
+            n = n['inner'][0]
+        if n.get('kind') != 'CallExpr':
+            return None
+        c = n['inner'][0]
+        while c['kind'] in ('ImplicitCastExpr', 'ParenExpr'):
+            c = c['inner'][0]
+        if c['kind'] == 'DeclRefExpr' and c['referencedDecl']['kind'] == 'FunctionDecl':
+            return c['referencedDecl']['name']
+        return None
+
+    def call_args(self, n):
+        while n.get('kind') in ('ParenExpr',):
+            n = n['inner'][0]
+        return n['inner'][1:]
+
+    def cells_of_bytes(self, e, t):
+        """the expression e counts bytes of objects of type t: the same count in cells"""
+        T = self.tr.types
+        c, b = T.cells(t), T.bytes_(t)
+        if c == b:
+            return e
+        x = e if c == 1 else '(EBin OMul U64 %s (EConst %d))' % (e, c)
+        return '(EBin ODiv U64 %s (EConst %d))' % (x, b)
 
     def assign(self, lv, e):
         kind, a, t = lv
